@@ -131,3 +131,33 @@ fn c01_page_cover() {
     kani::cover!(ps == 16 && off % 16 == 15 && len == 16, "COVER:straddles-two");
     kani::cover!(true, "COVER:end");
 }
+
+/// C17.inject / C17.forward — `inject_asm_code(code, dest)` for every length 0..=16 and placement:
+/// exactly one flush request is issued, after the copy, for exactly [dest, dest+len), and the range
+/// already holds the final content when it is flushed.
+#[kani::proof]
+#[kani::unwind(26)]
+#[kani::stub(crate::injector_core::linuxapi::__clear_cache, os::flush)]
+fn c17_inject() {
+    fresh_world();
+    unsafe {
+        os::SNAP_ON = true;
+    }
+    let off: usize = kani::any();
+    let len: usize = kani::any();
+    kani::assume(len <= 16 && off <= os::ARENA - 16);
+    let code: [u8; 16] = kani::any();
+    unsafe {
+        inject_asm_code(&code[..len], os::mem_ptr(off));
+        let base = os::mem_base();
+        assert!(os::N_FLUSH == 1 && os::FLUSH_START[0] == base + off && os::FLUSH_END[0] == base + off + len, "OBL:C17.inject.range: one flush for exactly the bytes written");
+        let j: usize = kani::any();
+        kani::assume(j < len);
+        assert!(os::MEM[off + j] == code[j] && os::FLUSH_SNAP[0][j] == code[j], "OBL:C17.inject.after-write: the range held its final content when it was flushed");
+        let i: usize = kani::any();
+        kani::assume(i < os::ARENA);
+        assert!(in_range(i, off, len) || os::MEM[i] == SNAPSHOT[i], "OBL:C03.frame.inject: nothing outside [dest, dest+len) is written");
+    }
+    kani::cover!(len == 16, "COVER:full");
+    kani::cover!(true, "COVER:end");
+}
